@@ -21,6 +21,7 @@ def jobs_for(rng, tier):
                                  "--maximages", "1500" if tier == "quick" else "4000"] + ["--sessions", str(rng.choice([1, 1, 2, 3]))]))
     jobs += ce.full_device_jobs(rng, 8 if tier == "quick" else 48)
     jobs += ce.wide_batch_jobs(rng, 2 if tier == "quick" else 12)
+    jobs += ce.huge_extent_jobs(rng, 1 if tier == "quick" else 6)
     return jobs
 
 
